@@ -119,18 +119,8 @@ theorem granted_le_min_cap_of_chain (c : Nat) (s : S) (h : Reachable c s) (hz : 
   have each : ∀ x ∈ s.chain l, gsum p l s.glog ≤ s.cap x :=
     fun x hx => Nat.le_trans (mono x hx) (gsum_le_cap h hz p x)
   refine ⟨each, ?_⟩
-  simp only [capOf, if_true]
-  have own : gsum p l s.glog ≤ s.cap l := gsum_le_cap h hz p l
-  generalize s.cap l = m at own
-  generalize s.chain l = ch at each
-  induction ch generalizing m with
-  | nil => exact own
-  | cons y ys ih =>
-    simp only [List.foldl_cons]
-    apply ih
-    · have := each y List.mem_cons_self
-      exact Nat.le_min.mpr ⟨own, this⟩
-    · exact fun x hx => each x (List.mem_cons_of_mem _ hx)
+  show gsum p l s.glog ≤ effCap s.cap (s.chain l) (s.cap l)
+  exact (le_effCap_iff _ _ _ _).mpr ⟨gsum_le_cap h hz p l, each⟩
 
 /-- **no overflow** (bridge to Go's `int`; no bound such as 2^62 is assumed on the capacities): `s.capHi` is the largest
     capacity ever passed to `New` / `SetCap`.  Every capacity, every `used`, every `last` and every queued amount stays
@@ -201,13 +191,28 @@ theorem closed_never_granted (s s' : S) (st : Step s s') (g : Grant) (hg : g ∈
   · exact h
 
 /-- **immediate errors** (`exec` in a state in which nobody holds the lock): a negative amount is refused; on a closed
-    limiter EVERY non-negative amount (0 included) is answered "closed"; on an open limiter an amount above its own
-    cap is answered with the cap error — all at once, nothing is queued, nothing is charged -/
+    limiter EVERY non-negative amount (0 included) is answered "closed"; on an open limiter an amount above `Cap(true)`
+    — the smallest capacity among the limiter and its ancestors — is answered with the cap error; all at once, nothing
+    is queued, nothing is charged -/
 theorem immediate_errors (s : S) (hf : s.holder = .free) (l : Nat) (amt : Int) (hl : l < s.n) :
     (amt < 0 → exec s (.use l amt) = answer s .errNeg) ∧
     (0 ≤ amt → s.closed l = true → exec s (.use l amt) = answer s .errClosed) ∧
-    (0 < amt → s.closed l = false → amt.toNat > s.cap l → exec s (.use l amt) = answer s .errCap) :=
+    (0 < amt → s.closed l = false → amt.toNat > capOf s l true → exec s (.use l amt) = answer s .errCap) :=
   ⟨exec_use_neg s hf l amt hl, exec_use_closed s hf l amt hl, exec_use_toobig s hf l amt hl⟩
+
+/-- **exceeds the cap ⇒ error at once**, for ANY applicable cap (commit 8ceae61; formerly a reading: a request above an
+    ancestor's cap waited until `Close`): an amount above the capacity of the limiter itself or of any limiter on its
+    chain is refused immediately -/
+theorem use_above_chain_cap_fails_at_once (s : S) (hf : s.holder = .free) (l : Nat) (amt : Int) (hl : l < s.n)
+    (ha : 0 < amt) (ho : s.closed l = false) (hb : amt.toNat > s.cap l ∨ ∃ x ∈ s.chain l, amt.toNat > s.cap x) :
+    exec s (.use l amt) = answer s .errCap := by
+  apply exec_use_toobig s hf l amt hl ha ho
+  apply Classical.byContradiction
+  intro hn
+  have := (le_effCap_iff s.cap (s.chain l) (s.cap l) amt.toNat).mp (by omega)
+  rcases hb with hb | ⟨x, hx, hb⟩
+  · omega
+  · have := this.2 x hx; omega
 
 /-- the same at the level of single steps, for ANY reachable state: whoever holds the lock as a caller of `Use` on a
     closed limiter can only answer "closed" -/
@@ -223,7 +228,7 @@ theorem use_zero_open (s : S) (hf : s.holder = .free) (l : Nat) (hl : l < s.n) (
 /-- the other two outcomes of `Use`: granted at once exactly when there is room along the whole chain, queued (at
     the end of the queue) otherwise -/
 theorem use_grants_iff_room (s : S) (hf : s.holder = .free) (l : Nat) (amt : Int) (hl : l < s.n) (ha : 0 < amt)
-    (ho : s.closed l = false) (hb : amt.toNat ≤ s.cap l) :
+    (ho : s.closed l = false) (hb : amt.toNat ≤ capOf s l true) :
     exec s (.use l amt) =
       if fits s.cap s.used (s.chain l) amt.toNat then doUseGrant s l amt.toNat else doUseWait s l amt.toNat :=
   exec_use_room s hf l amt hl ha ho hb
@@ -241,9 +246,25 @@ theorem waiting_served_fifo_as_capacity_returns (c : Nat) (s : S) (h : Reachable
     (doTickRuns s).waiting.Sublist s.waiting :=
   ⟨queue_sorted h, fun pre post u p => service_append _ _ _ p u pre post, service_waiting_sub _ _ _ _ _ _⟩
 
-/-- **as capacity returns**: at a tick, the request at the head of the queue is granted if its limiter is open and
-    its amount is within the capacity of every limiter on its chain.  (A request above an ancestor's cap waits until
-    `Close`: DESIGN Appendix B, not claimed.) -/
+/-- **every tick answers the head of the queue**, whatever it is: "closed" if its limiter is closed, the cap error if
+    its amount is (now) above the smallest cap of its chain, and otherwise it is granted — after the reset it fits; the
+    requests behind it keep their order -/
+theorem head_of_queue_answered_at_tick (c : Nat) (s : S) (h : Reachable c s) (r : Req) (rest : List Req)
+    (hw : s.waiting = r :: rest) :
+    (doTickRuns s).waiting.Sublist rest ∧ ∃ a, (r.id, a) ∈ (doTickRuns s).answered :=
+  head_answered h r rest hw
+
+/-- **every request is answered** (no exception any more): on every infinite run — any interleaving — on which time
+    passes and the ticker goroutine is scheduled (`TicksServed`: until the queue has been drained after root `Close`,
+    the body of a tick or that drain is run again and again), a request that is waiting leaves the queue at some later
+    instant and then has exactly one answer.  (With `k` requests ahead of it: after at most `k + 1` served ticks.) -/
+theorem every_request_answered (c : Nat) (run : Nat → S) (r : IsRun c run) (ts : TicksServed run) (i id : Nat)
+    (hw : Waiting (run i) id) :
+    ∃ j, i ≤ j ∧ ¬ Waiting (run j) id ∧ ((run j).answered.map (·.1)).count id = 1 :=
+  eventually_answered r ts i id hw
+
+/-- **as capacity returns**: at a tick, the request at the head of the queue is GRANTED if its limiter is open and its
+    amount is within the capacity of every limiter on its chain -/
 theorem head_of_queue_served_at_tick (c : Nat) (s : S) (h : Reachable c s) (r : Req) (rest : List Req)
     (hw : s.waiting = r :: rest) (ho : s.closed r.lim = false) (hfit : ∀ x ∈ s.chain r.lim, r.amt ≤ s.cap x) :
     (r.id, Ans.ok) ∈ (doTickRuns s).answered :=
@@ -318,11 +339,18 @@ theorem close_fails_pending (s : S) (r : Req) (hr : r ∈ s.waiting) :
     exact List.mem_append_left _ (service_closed _ _ _ _ _ _ r hr hc)
   · exact List.mem_append_left _ (List.mem_map.mpr ⟨r, hr, rfl⟩)
 
-/-- **lowered cap**: a request that is waiting when `SetCap` lowers its limiter's cap below its amount is answered
-    with the cap error by the next tick (and, by `answer_exactly_once`, only then) -/
+/-- **lowered cap on the chain**: a request that is waiting when `SetCap` — on its limiter or on an ANCESTOR — lowers the
+    smallest cap of its chain below its amount is answered with the cap error by the next tick (and, by
+    `answer_exactly_once`, only then) -/
+theorem queued_above_lowered_chain_cap_fails_at_tick (s : S) (r : Req) (hr : r ∈ s.waiting)
+    (ho : s.closed r.lim = false) (hb : r.amt > capOf s r.lim true) : (r.id, Ans.errCap) ∈ (doTickRuns s).answered :=
+  List.mem_append_left _ (service_toobig _ _ _ _ _ _ r hr ho hb)
+
+/-- the special case of the limiter's own cap -/
 theorem queued_above_lowered_cap_fails_at_tick (s : S) (r : Req) (hr : r ∈ s.waiting) (ho : s.closed r.lim = false)
     (hb : r.amt > s.cap r.lim) : (r.id, Ans.errCap) ∈ (doTickRuns s).answered :=
-  List.mem_append_left _ (service_toobig _ _ _ _ _ _ r hr ho hb)
+  queued_above_lowered_chain_cap_fails_at_tick s r hr ho
+    (Nat.lt_of_le_of_lt (effCap_le_own s.cap (s.chain r.lim) (s.cap r.lim)) hb)
 
 /-- `SetCap` changes nothing but the capacity (and the history of capacities) -/
 theorem setCap_effect (s : S) (hf : s.holder = .free) (l k : Nat) (hl : l < s.n) :
@@ -379,9 +407,10 @@ theorem close_returns_under_fair_scheduling (c : Nat) (run : Nat → S) (r : IsR
 /-- the fairness assumptions are satisfiable together: a concrete infinite run (root `Close`, the drain, then
     `Use(-1)` for ever) meets all of them, has the closer blocked on `done` at instant 3 and returned at instant 4 -/
 theorem fair_run_exists :
-    IsRun 5 witness ∧ HoldersRun witness ∧ LockFair witness ∧ SelectFair witness ∧
+    IsRun 5 witness ∧ HoldersRun witness ∧ LockFair witness ∧ SelectFair witness ∧ TicksServed witness ∧
     (witness 3).cpc = .send ∧ (witness 4).cpc = .ret :=
-  ⟨witness_isRun, witness_holdersRun, witness_lockFair, witness_selectFair, witness_close.1, witness_close.2⟩
+  ⟨witness_isRun, witness_holdersRun, witness_lockFair, witness_selectFair, witness_ticksServed, witness_close.1,
+   witness_close.2⟩
 
 /-- **API calls return**: in every reachable state a caller of `Use`, `New`, `SetCap`, `Cap`, `LastUsed`, `Closed` or
     child `Close` finds the lock free and can take it, or the holder can release it by steps of its own; and once the
